@@ -173,6 +173,9 @@ def pca_data(rng, n, d, kind):
         X = X * 10.0 ** rng.uniform(5, 10)                 # raw sensor / pixel-sum magnitudes (menpo's documented cut-off is an absolute 1e-10)
     if kind == "small_values":
         X = X * 10.0 ** rng.uniform(-9, -3)                # the same data in a small unit (metres for micrometre-sized things): every cut-off is relative
+    if kind in ("far_offset", "single_precision_increments"):
+        # map coordinates / timestamps: the offset from the origin is orders of magnitude larger than the spread
+        X = X + 10.0 ** rng.uniform(4, 6.8) * rng.choice([-1.0, 1.0], d) * rng.uniform(0.3, 1.0, d)
     if kind == "zero_column":
         X[:, rng.integers(0, d)] = 0.0                     # a feature that is identically zero (masked / padded pixel)
     elif kind == "zero_mean_first_batch":
@@ -183,6 +186,10 @@ def pca_data(rng, n, d, kind):
 def run_pca(ctx, rng, comp, d, centre, kind):
     from menpo.model import PCAVectorModel
     n = sum(comp)
+    if kind in ("far_offset", "single_precision_increments") and not centre:
+        # (an uncentred model of data far from the origin is all offset: its one huge eigenvalue puts every other one below the
+        # documented relative cut-off - nothing of the spread is left to compare)
+        kind = "plain"
     X = pca_data(rng, n, d, kind)
     if kind == "zero_mean_first_batch" and comp[0] % 2 == 0:
         h = comp[0] // 2
@@ -193,6 +200,14 @@ def run_pca(ctx, rng, comp, d, centre, kind):
     if kind == "integer_samples":
         # (the constructor centres in place and therefore wants floating point data; increments take the samples as they come)
         chunks = [chunks[0]] + [c.astype(np.int64) for c in chunks[1:]]
+    if kind == "single_precision_increments":
+        # some of the later samples come out of a single-precision stage: they are the numbers they are (exactly representable
+        # in double precision), handed over as float32 arrays
+        for j in range(1, len(chunks)):
+            if rng.random() < 0.6:
+                X[cuts[j]:cuts[j + 1]] = X[cuts[j]:cuts[j + 1]].astype(np.float32)
+                chunks[j] = X[cuts[j]:cuts[j + 1]].astype(np.float32)
+                ctx.bump("single_precision_increments_fed_to_a_double_precision_model")
     longer = kind != "integer_samples" and rng.random() < 0.25
     if longer:
         # the documented n_samples argument: "take the next n_samples of this sequence" (here the sequence holds more than that)
@@ -231,7 +246,7 @@ def w_pca_exhaustive(ctx, rng, i):
     variant = i // len(ALL_COMPS)
     centre = bool(variant % 2 == 0)
     d = [3, 12][(variant // 2) % 2]                         # below and above n
-    kind = ["plain", "zero_column", "zero_mean_first_batch", "large_values", "integer_samples", "small_values"][(variant // 4) % 6]
+    kind = ["plain", "zero_column", "zero_mean_first_batch", "large_values", "integer_samples", "small_values", "far_offset", "single_precision_increments"][(variant // 4) % 8]
     run_pca(ctx, rng, comp, d, centre, kind)
     ctx.count_case(("pca", tuple(comp), centre, d, kind), nontrivial=True,
                    sample={"model": "PCA", "composition": comp, "centred": centre, "d": d, "data": kind} if i < 4 else None)
@@ -259,7 +274,7 @@ def w_pca_random(ctx, rng, i):
     cuts = sorted(rng.choice(np.arange(1, rest), size=min(k - 1, max(0, rest - 1)), replace=False).tolist()) if rest > 1 and k > 1 else []
     comp = [first] + [b - a for a, b in zip([0] + cuts, cuts + [rest])]
     centre = bool(rng.random() < 0.6)
-    kind = ["plain", "plain", "zero_column", "zero_mean_first_batch", "large_values", "integer_samples", "small_values"][rng.integers(0, 7)]
+    kind = ["plain", "plain", "zero_column", "zero_mean_first_batch", "large_values", "integer_samples", "small_values", "far_offset", "single_precision_increments"][rng.integers(0, 9)]
     m1, X = run_pca(ctx, rng, comp, d, centre, kind)
     # a different splitting of the same data agrees with the first one
     comp2 = [comp[0] + comp[1]] + comp[2:] if len(comp) > 2 else [max(2, n // 2), n - max(2, n // 2)]
@@ -294,6 +309,15 @@ def w_pca_object(ctx, rng, i):
         for j in 1 + rng.choice(n - 1, int(rng.integers(1, 4)), replace=False):
             X[j] = np.round(X[j])
             shapes[j] = ms.PointCloud(X[j].reshape(k, dd).astype(np.int64))
+    if not mixed and rng.random() < 0.4:
+        # landmarks in map coordinates, some of the annotations stored in single precision (not the very first sample: the
+        # constructor chunk sets the precision of the model)
+        mixed = "single_precision"
+        X = X + 10.0 ** rng.uniform(4, 6.5) * rng.uniform(0.3, 1.0, k * dd)
+        shapes = [ms.PointCloud(r.reshape(k, dd)) for r in X]
+        for j in 1 + rng.choice(n - 1, int(rng.integers(1, 5)), replace=False):
+            X[j] = X[j].astype(np.float32)
+            shapes[j] = ms.PointCloud(X[j].reshape(k, dd).astype(np.float32))
     first = int(rng.integers(2, n - 1))
     step = int(rng.integers(1, 5))
     stream = bool(rng.random() < 0.5)
@@ -318,7 +342,7 @@ def w_pca_object(ctx, rng, i):
         mo = np.asarray(m.mean().as_vector(), dtype=float)
         if _amax(mo - X.mean(0)) > 1e-9 * max(1.0, np.abs(X).max()):
             ctx.fail("object_backed_incremental_differs_from_batch", cls="PCAModel", mech="mean_object:after_increments")
-    b = PCAModel(shapes)
+    b = PCAModel([ms.PointCloud(r.reshape(k, dd)) for r in X]) if mixed == "single_precision" else PCAModel(shapes)       # (the same numbers, all in double precision)
     ctx.tap("object_backed_vs_batch", "calls"); ctx.tap("object_backed_vs_batch", "checked")
     scale = max(1.0, np.abs(X).max())
     if m.n_samples != b.n_samples or _amax(m._mean - b._mean) > 1e-9 * scale:
@@ -352,11 +376,20 @@ def w_gmrf(ctx, rng, i):
     n0 = 6 * max(block, 2) + int(rng.integers(2, 10))
     incs = [int(v) for v in rng.integers(1, 12, int(rng.integers(1, 5)))]
     X = gmrfmon.make_data(rng, n0 + sum(incs), V, k)
+    idt = None
+    if dtype == np.float64 and rng.random() < 0.2:
+        # pixel intensities / integer pixel positions: whole numbers, the later samples handed over in the compact integer type
+        # they were stored in
+        X = np.round((X - X.min()) / max(1e-300, float(np.ptp(X))) * 240.0 + 5.0)
+        idt = [np.uint8, np.int16, np.int32, np.uint16][rng.integers(0, 4)]
+        ctx.bump("integer_typed_gmrf_increments")
     gmrfmon.clear()
     m = GMRFVectorModel(X[:n0].copy(), g, mode=mode, dtype=dtype, sparse=sparse, bias=bias, incremental=True)
     a = n0
     for c in incs:
-        if rng.random() < 0.25:
+        if idt is not None:
+            m.increment(X[a:a + c].astype(idt) if rng.random() < 0.5 else [row.astype(idt) for row in X[a:a + c]])
+        elif rng.random() < 0.25:
             # the documented progress-report flag changes what is printed, nothing else
             import io, contextlib
             with contextlib.redirect_stdout(io.StringIO()):
@@ -425,7 +458,7 @@ def w_gmrf_object(ctx, rng, i):
 
 
 WORKLOADS = [
-    Workload("pca_every_composition", w_pca_exhaustive, quick=len(ALL_COMPS) * 24, thorough=len(ALL_COMPS) * 24 * 20, exhaustive=True),
+    Workload("pca_every_composition", w_pca_exhaustive, quick=len(ALL_COMPS) * 32, thorough=len(ALL_COMPS) * 32 * 15, exhaustive=True),
     Workload("pca_random", w_pca_random, quick=400, thorough=20000),
     Workload("pca_object", w_pca_object, quick=100, thorough=3000),
     Workload("gmrf", w_gmrf, quick=576, thorough=20000),
